@@ -592,6 +592,22 @@ func (g *Gen) specCall(env *Env, e *Expr) *Val {
 			return nil
 		}
 		return scalar("Int", a.S[0], nil)
+	case "heapFp", "heapFr":
+		// the whole point / scalar heap of the state the expression is evaluated in (for spec functions that follow pointers)
+		srt := strings.TrimPrefix(fn, "heap")
+		h, ok := env.heap[srt]
+		if !ok {
+			g.specErr("no "+srt+" heap in this view", e)
+			return nil
+		}
+		return scalar(g.heapSort(srt), h, nil)
+	case "allocated":
+		// allocated(x): x refers to an object that existed in the pre-state of the contract (or is nil)
+		a := g.specVal(env, args[0])
+		if a == nil {
+			return nil
+		}
+		return scalar("Bool", fmt.Sprintf("(< %s %s)", a.S[0], env.oldNextobj), nil)
 	case "obj":
 		a := g.specVal(env, args[0])
 		if a == nil {
